@@ -15,7 +15,11 @@
 (*          action.Upgrade with NO values in the default, reuse-values,      *)
 (*          reset-then-reuse-values and reset-values modes: the instances in  *)
 (*          the new manifest, the hooks and the stored chart, judged against  *)
-(*          the values in force on that route (Deps!CaseFor).                 *)
+(*          the values in force on that route (Deps!CaseFor); and, the other  *)
+(*          way round, install with the chart defaults only, then an upgrade  *)
+(*          WITH the case's values ("upgrade-new").  For every upgrade also   *)
+(*          the hook objects it really created in the cluster (request log),  *)
+(*          pre- and post-upgrade.                                            *)
 (* A failing check is excused only in the shape of a known finding, and then *)
 (* only if the observation equals what the code-shaped model predicts for    *)
 (* that shape (any other deviation in such a case is still a violation).     *)
@@ -59,7 +63,9 @@ Checks(o) ==
       \* history route
       RawC(X) == {D!RawPath(c, P) : P \in Crd(X)}
       Want(cx, X) == IF \E S \in D!ExpEs(cx) : Tpl(S) = X THEN CHOOSE S \in D!ExpEs(cx) : Tpl(S) = X ELSE D!ExpE(cx)
+      \* ... and the hook objects the upgrade actually created in the cluster (request log), before and after the resources
       UpIs(u, W) == Rng(u.manifest) = Tpl(W) /\ Rng(u.hooks) = Tpl(W) /\ Rng(u.stored) = W
+                    /\ Rng(u.ran) = Tpl(W) /\ Rng(u.ranpost) = Tpl(W)
       \* (an upgrade the schema gate rejected produced nothing to judge)
       UpOK(u)     == u.schema \/ (u.ok /\ UpIs(u, Want(D!CaseFor(c, u.mode), Rng(u.manifest))))
       UpAsCode(u) == u.schema \/ (u.ok /\ UpIs(u, D!EnabledCode(D!CaseFor(c, u.mode))))
@@ -93,6 +99,9 @@ Checks(o) ==
         \A u \in Ups({"upgrade-reuse", "upgrade-reset-then-reuse"}) : UpAsCode(u)),
     \* ... and after reset-values the chart defaults alone
     Chk("C11_UpgradeResets", \A u \in Ups({"upgrade-reset"}) : UpOK(u), en, \A u \in Ups({"upgrade-reset"}) : UpAsCode(u)),
+    \* an upgrade whose values switch dependencies on / off relative to the deployed revision: only the new revision's
+    \* enabled charts contribute templates and EXECUTED hooks
+    Chk("C11_UpgradeSwitches", \A u \in Ups({"upgrade-new"}) : UpOK(u), en, \A u \in Ups({"upgrade-new"}) : UpAsCode(u)),
     \* the template run fails only at the schema gate
     Chk("C11_TemplateRuns", o.bok \/ o.schemaErr, "", FALSE),
     [n |-> "NoStrayFiles", kind |-> "mach", v |-> o.stray = <<>>, kf |-> ""] >>
